@@ -107,6 +107,8 @@ pub enum Expr {
     Neg(Operand),
     /// n * -X
     ScaleNeg(u8, Operand),
+    /// -X <more>   e.g. `-x + 1`, and inside a group `(-x + 1) * 2` (the bool)
+    NegThen(Operand, String, bool),
     /// X <suffix words>   e.g. "to try", "as minutes", "+ 1 day"
     Suffix(Operand, String),
     /// <prefix words> X   e.g. "10% of", "5% on"
@@ -127,6 +129,10 @@ pub enum Stmt {
 #[derive(Clone, Debug, Serialize, Deserialize)]
 pub struct Program {
     pub stmts: Vec<Stmt>,
+    /// language tag of the evaluation: 0 en; 1 "fr", 2 "" , 3 "de" - tags without a configuration of their own: fewer
+    /// sentences mean something there, but a name is a name under every tag
+    #[serde(default)]
+    pub lang: u8,
 }
 
 pub const GARBAGE: [&str; 6] = ["+ * /", "hello world", "(((", "1 +", "%", "what is this"];
@@ -168,7 +174,7 @@ fn sound(e: &Expr, env: &Env) -> bool {
         // `a / d/m/y` would continue the quotient chain into the date
         Expr::Bin(_, '/', b) => !is_date(b),
         Expr::One(_) | Expr::Bin(..) => true,
-        Expr::Neg(o) | Expr::ScaleNeg(_, o) => signable(o),
+        Expr::Neg(o) | Expr::ScaleNeg(_, o) | Expr::NegThen(o, _, _) => signable(o),
         Expr::Suffix(o, w) => !is_date(o) || SAFE_DATE_SUFFIX.contains(&w.as_str()),
         Expr::Prefix(w, o) => !is_date(o) || !(w.ends_with("of") || w.ends_with("on") || w.ends_with("off")),
     }
@@ -193,6 +199,14 @@ fn expr(e: &Expr, env: &Env) -> Option<(String, String, bool)> {
         Expr::ScaleNeg(k, o) => {
             let (p, s, n) = operand(o, env)?;
             (format!("{} * -{}", k, p), format!("{} * -{}", k, s), n)
+        }
+        Expr::NegThen(o, more, group) => {
+            let (p, s, n) = operand(o, env)?;
+            if *group {
+                (format!("(-{} {}) * 2", p, more), format!("(-{} {}) * 2", s, more), n)
+            } else {
+                (format!("-{} {}", p, more), format!("-{} {}", s, more), n)
+            }
         }
         Expr::Suffix(o, w) => {
             let (p, s, n) = operand(o, env)?;
@@ -222,6 +236,7 @@ impl Prop for Programs {
     }
     fn check(&self, w: &mut Worker, p: &Program) -> Verdict {
         let cfg = Cfg::default();
+        let lang: &str = ["en", "fr", "", "de"][p.lang as usize % 4];
         let mut env: Env = BTreeMap::new();
         let mut lines: Vec<String> = vec![];
         let mut acc = Acc::new();
@@ -273,7 +288,7 @@ impl Prop for Programs {
             };
             lines.push(line.clone());
             let text = lines.join("\n");
-            let out = match w.eval(&cfg, "en", &text) {
+            let out = match w.eval(&cfg, lang, &text) {
                 Ok(o) => o,
                 Err(pn) => {
                     acc.fail(format!("panic at {}: {}", pn.site, pn.message));
@@ -288,15 +303,18 @@ impl Prop for Programs {
             match (&subst, st) {
                 (Some(sb), _) => {
                     // substitution oracle
-                    let expected = match w.eval1(&cfg, "en", sb) {
+                    let expected = match w.eval1(&cfg, lang, sb) {
                         Ok(s) => s,
                         Err(e) => {
                             acc.fail(format!("substituted line {:?}: {}", sb, e));
                             break;
                         }
                     };
-                    if !equiv(&observed, &expected) {
-                        acc.fail(format!("line {} {:?} gives {} but with the names replaced by their values ({:?}) it gives {}", lines.len(), line, observed.brief(), sb, expected.brief()));
+                    // under a tag without a configuration only sentences of numbers, percentages and operators mean
+                    // something (no zone, unit, currency or phrase rule exists there): the others are not compared
+                    let comparable = lang == "en" || sb.split('=').last().unwrap_or("").chars().all(|ch| ch.is_ascii_digit() || " ,.+-*/()%".contains(ch));
+                    if comparable && !equiv(&observed, &expected) {
+                        acc.fail(format!("line {} {:?} gives {} but with the names replaced by their values ({:?}) it gives {}{}", lines.len(), line, observed.brief(), sb, expected.brief(), if lang == "en" { String::new() } else { format!(" [language tag {:?}]", lang) }));
                         break;
                     }
                 }
@@ -354,13 +372,13 @@ impl Prop for Programs {
         let text = lines.join("\n");
         // the same program line by line through one re-used session must give the same slots
         if acc.ok() && !lines.is_empty() {
-            let whole = w.eval(&cfg, "en", &text);
+            let whole = w.eval(&cfg, lang, &text);
             let calc = w.calcs.get(&cfg);
             let mut session = smartcalc::Session::new();
             let mut via_session = vec![];
             let mut broke = None;
             for l in &lines {
-                match eval_session(calc, &mut session, "en", l) {
+                match eval_session(calc, &mut session, lang, l) {
                     Ok(o) => {
                         if !o.status || o.slots.len() != 1 {
                             broke = Some(format!("re-used session: line {:?} gives status={} slots={}", l, o.status, o.slots.len()));
@@ -387,7 +405,7 @@ impl Prop for Programs {
             }
         }
         let nt = used_after_rebind || fail_between || copy_then_rebind || prefix_pair_live;
-        let mut v = acc.finish(text.replace('\n', " ; ")).nt(nt).class_if(used_after_rebind, "rebound-then-used").class_if(fail_between, "failing-line-between-binding-and-use").class_if(copy_then_rebind, "copy-then-source-rebound").class_if(prefix_pair_live, "prefix-names-both-live").class_if(skipped > 0, "some-statements-skipped(unbound-name)").class_if(lines.len() >= 8, "eight-or-more-lines");
+        let mut v = acc.finish(text.replace('\n', " ; ")).nt(nt).class_if(used_after_rebind, "rebound-then-used").class_if(fail_between, "failing-line-between-binding-and-use").class_if(copy_then_rebind, "copy-then-source-rebound").class_if(prefix_pair_live, "prefix-names-both-live").class_if(skipped > 0, "some-statements-skipped(unbound-name)").class_if(lines.len() >= 8, "eight-or-more-lines").class_if(lang != "en", "language-tag-without-a-configuration");
         for k in kinds {
             v = v.class(k);
         }
@@ -429,6 +447,7 @@ pub fn expr_strategy() -> impl Strategy<Value = Expr> {
         5 => (operand_strategy(5), op, operand_strategy(3)).prop_map(|(a, o, b)| Expr::Bin(a, o, b)),
         1 => operand_strategy(8).prop_map(Expr::Neg),
         1 => (2u8..9, operand_strategy(8)).prop_map(|(k, o)| Expr::ScaleNeg(k, o)),
+        1 => (operand_strategy(8), prop::sample::select(vec!["+ 1", "* 2", "+ 250", "- 3", "/ 4"]), prop::bool::weighted(0.3)).prop_map(|(o, m, g)| Expr::NegThen(o, m.to_string(), g)),
         4 => (operand_strategy(8), suffix).prop_map(|(o, s)| Expr::Suffix(o, s)),
         2 => (prefix, operand_strategy(8)).prop_map(|(p, o)| Expr::Prefix(p, o)),
     ]
@@ -450,11 +469,18 @@ pub fn stmt_strategy() -> impl Strategy<Value = Stmt> {
 }
 
 pub fn program_strategy(max: usize) -> impl Strategy<Value = Program> {
+    (program_strategy_en(max), prop_oneof![9 => Just(0u8), 1 => 1u8..4]).prop_map(|(mut p, lang)| {
+        p.lang = lang;
+        p
+    })
+}
+
+fn program_strategy_en(max: usize) -> impl Strategy<Value = Program> {
     // start with a few plain assignments so that names are bound early
     (prop::collection::vec((0u8..13, 0u8..5, any::<u32>(), literal_strategy()), 1..4), prop::collection::vec(stmt_strategy(), 2..max)).prop_map(|(init, rest)| {
         let mut stmts: Vec<Stmt> = init.into_iter().map(|(i, c, b, l)| Stmt::Assign(i, c, b, Expr::One(Operand::Lit(l)))).collect();
         stmts.extend(rest);
-        Program { stmts }
+        Program { stmts, lang: 0 }
     })
 }
 
@@ -464,19 +490,19 @@ pub fn regressions() -> Vec<Program> {
     let asg = |i: u8, e: Expr| Stmt::Assign(i, 0, 0, e);
     vec![
         // F30: du = 90 seconds ; du as minutes
-        Program { stmts: vec![asg(3, Expr::One(lit("90 seconds"))), Stmt::Use(Expr::Suffix(n(3), "as minutes".into()))] },
+        Program { stmts: vec![asg(3, Expr::One(lit("90 seconds"))), Stmt::Use(Expr::Suffix(n(3), "as minutes".into()))], lang: 0 },
         // leading sign on a money variable
-        Program { stmts: vec![asg(3, Expr::One(lit("10 usd"))), Stmt::Use(Expr::Neg(n(3))), Stmt::Use(Expr::ScaleNeg(3, n(3)))] },
+        Program { stmts: vec![asg(3, Expr::One(lit("10 usd"))), Stmt::Use(Expr::Neg(n(3))), Stmt::Use(Expr::ScaleNeg(3, n(3)))], lang: 0 },
         // value, not reference
-        Program { stmts: vec![asg(5, Expr::One(lit("3"))), asg(4, Expr::One(n(5))), asg(5, Expr::One(lit("4"))), Stmt::Use(Expr::One(n(4))), Stmt::Use(Expr::One(n(5)))] },
+        Program { stmts: vec![asg(5, Expr::One(lit("3"))), asg(4, Expr::One(n(5))), asg(5, Expr::One(lit("4"))), Stmt::Use(Expr::One(n(4))), Stmt::Use(Expr::One(n(5)))], lang: 0 },
         // failing lines leave the binding
-        Program { stmts: vec![asg(0, Expr::One(lit("5"))), Stmt::Fail(0, 0), Stmt::Use(Expr::One(n(0))), Stmt::Fail(0, 1), Stmt::Use(Expr::One(n(0))), Stmt::Fail(0, 2), Stmt::Use(Expr::One(n(0))), Stmt::Fail(0, 3), Stmt::Use(Expr::One(n(0)))] },
+        Program { stmts: vec![asg(0, Expr::One(lit("5"))), Stmt::Fail(0, 0), Stmt::Use(Expr::One(n(0))), Stmt::Fail(0, 1), Stmt::Use(Expr::One(n(0))), Stmt::Fail(0, 2), Stmt::Use(Expr::One(n(0))), Stmt::Fail(0, 3), Stmt::Use(Expr::One(n(0)))], lang: 0 },
         // longest match
-        Program { stmts: vec![asg(0, Expr::One(lit("5"))), asg(1, Expr::One(lit("7"))), asg(2, Expr::One(lit("3"))), Stmt::Use(Expr::Bin(n(2), '+', n(1))), Stmt::Use(Expr::Bin(n(1), '+', n(0))), Stmt::Use(Expr::Bin(n(0), '*', n(2)))] },
+        Program { stmts: vec![asg(0, Expr::One(lit("5"))), asg(1, Expr::One(lit("7"))), asg(2, Expr::One(lit("3"))), Stmt::Use(Expr::Bin(n(2), '+', n(1))), Stmt::Use(Expr::Bin(n(1), '+', n(0))), Stmt::Use(Expr::Bin(n(0), '*', n(2)))], lang: 0 },
         // a time moved past midnight by arithmetic carries tomorrow's date: it has no literal spelling (false alarm of an earlier version of this check)
-        Program { stmts: vec![asg(7, Expr::One(lit("10:30"))), asg(0, Expr::One(lit("23:15:10"))), asg(1, Expr::Bin(n(7), '+', n(0))), Stmt::Use(Expr::Suffix(n(1), "as unix".into()))] },
+        Program { stmts: vec![asg(7, Expr::One(lit("10:30"))), asg(0, Expr::One(lit("23:15:10"))), asg(1, Expr::Bin(n(7), '+', n(0))), Stmt::Use(Expr::Suffix(n(1), "as unix".into()))], lang: 0 },
         // self reference
-        Program { stmts: vec![asg(3, Expr::One(lit("1"))), asg(3, Expr::Bin(n(3), '+', lit("1"))), asg(3, Expr::Bin(n(3), '*', n(3))), Stmt::Use(Expr::One(n(3)))] },
+        Program { stmts: vec![asg(3, Expr::One(lit("1"))), asg(3, Expr::Bin(n(3), '+', lit("1"))), asg(3, Expr::Bin(n(3), '*', n(3))), Stmt::Use(Expr::One(n(3)))], lang: 0 },
     ]
 }
 
@@ -581,7 +607,7 @@ pub fn script_regressions() -> Vec<Script> {
 }
 
 pub fn run(ctx: &Ctx) {
-    ctx.rule("generated straight-line programs of up to 14 statements over 11 names (one-, two- and three-word, word-prefixes of each other: total / total cost / total cost net; two with non-ASCII letters whose case mapping is one-to-one: ürün, цена нетто; two that are also a month and a zone word: may, west; one containing an operator character: tax-rate), names written in random letter case at every occurrence: assignments of literals of seven kinds (number, percent, money, duration, date, time, unit quantity), copies, arithmetic incl. self-reference, uses (name alone, name op operand, -name, n * -name, conversion / percentage / date / zone / unit / duration / unix / base sentences), broken assignments to existing names (= 1 +, = (, =, type error) and garbage lines; names re-bound to a value that differs from the current one by less than the printer shows (x = x + 0,004); oracle: environment model holding the value OBSERVED at the binding, and substitution: each line must evaluate exactly like the same line with every name replaced by a literal spelling of the model's value on a variable-free session; the whole program is also run line by line through one re-used Session and must give the same slots; second sub-check (free-form scripts over names that contain each other as words, with assignments failing in the parser or in the interpreter - also first-time assignments): with any ONE failing line removed, every other line - evaluating or failing - gives exactly what it gave before; non-trivial = a name bound twice and used afterwards, a failing line between a binding and a use, a copy whose source is re-bound, two prefix-related names live");
+    ctx.rule("generated straight-line programs of up to 14 statements over 11 names (one-, two- and three-word, word-prefixes of each other: total / total cost / total cost net; two with non-ASCII letters whose case mapping is one-to-one: ürün, цена нетто; two that are also a month and a zone word: may, west; one containing an operator character: tax-rate), names written in random letter case at every occurrence: assignments of literals of seven kinds (number, percent, money, duration, date, time, unit quantity), copies, arithmetic incl. self-reference, uses (name alone, name op operand, -name, n * -name, conversion / percentage / date / zone / unit / duration / unix / base sentences), broken assignments to existing names (= 1 +, = (, =, type error) and garbage lines; a tenth of the programs under a language tag without a configuration (fr, de, the empty tag: arithmetic lines are compared there); a signed name followed by more (-x + 1, (-x + 1) * 2); names re-bound to a value that differs from the current one by less than the printer shows (x = x + 0,004); oracle: environment model holding the value OBSERVED at the binding, and substitution: each line must evaluate exactly like the same line with every name replaced by a literal spelling of the model's value on a variable-free session; the whole program is also run line by line through one re-used Session and must give the same slots; second sub-check (free-form scripts over names that contain each other as words, with assignments failing in the parser or in the interpreter - also first-time assignments): with any ONE failing line removed, every other line - evaluating or failing - gives exactly what it gave before; non-trivial = a name bound twice and used afterwards, a failing line between a binding and a use, a copy whose source is re-bound, two prefix-related names live");
     ctx.assume("a name is used only after the model has a spellable binding for it (statements that would mention an unbound or unspellable name are skipped and counted)");
     ctx.run_table(&Programs, "regressions", regressions(), false);
     let max = match ctx.tier {
